@@ -485,6 +485,8 @@ pub fn gen_c02(run: &mut Run, seed: u64, thorough: bool) {
             (b"eth".to_vec(), b"0x1".to_vec()),
             (b"eth".to_vec(), b"0x2".to_vec()),
             (b"".to_vec(), b"abc".to_vec()),
+            (b"avax".to_vec(), b"0x1".to_vec()), // the same id as a message of another chain
+            (b"abc".to_vec(), b"".to_vec()),
         ];
         let apps = [Addr::c(60), Addr::c(61)];
         let mk = |k: usize, content: u8| -> Msg {
@@ -714,7 +716,7 @@ pub fn gen_c03(run: &mut Run, seed: u64, thorough: bool) {
             g.q_auth_state(&[]);
         }
         // proofs of every kind for a good candidate
-        for kind in 0..10 {
+        for kind in 0..13 {
             let cand = g.mk_set(2, 0, 2);
             let latest = g.sets.last().unwrap().clone();
             let n = g.sets.len();
@@ -751,6 +753,29 @@ pub fn gen_c03(run: &mut Run, seed: u64, thorough: bool) {
                 8 => {
                     let older = g.sets[n.saturating_sub(2)].clone();
                     (g.honest(&older, &cand.rotation_data_hash(&g.env)), true, AuthSpec::exact(&[g.owner.clone()]), "proof-older-bypass-owner")
+                }
+                10 | 11 | 12 => {
+                    // the proof DECLARES a tampered version of the latest set (first signer listed twice / a weight raised /
+                    // the threshold lowered) and carries the genuine signatures over the real set's digest
+                    let mut t = latest.clone();
+                    let nm = match kind {
+                        10 => {
+                            let f = t.signers[0];
+                            t.signers.insert(0, f);
+                            "proof-declares-duplicated-signer"
+                        }
+                        11 => {
+                            t.signers[0].1 += 1;
+                            "proof-declares-raised-weight"
+                        }
+                        _ => {
+                            t.threshold = if t.threshold > 1 { t.threshold - 1 } else { t.threshold + 1 };
+                            "proof-declares-other-threshold"
+                        }
+                    };
+                    let d_real = g.signers_digest(&latest, &cand.rotation_data_hash(&g.env));
+                    let pf = g.proof(&t, &d_real, &vec![SigMode::Valid; t.signers.len()]);
+                    (pf, false, AuthSpec::None, nm)
                 }
                 _ => (g.honest(&latest, &cand.rotation_data_hash(&g.env)), true, AuthSpec::exact(&[Addr::c(9)]), "proof-latest-bypass-stranger"),
             };
@@ -865,7 +890,7 @@ pub fn gen_c09(run: &mut Run, seed: u64, thorough: bool) {
     let mut sc = 0;
     // directed part: every kind of clock-setting event, then ONE probe rotation just before / at / just after the
     // boundary that event defines (a fresh gateway per probe, because a successful probe moves the clock itself)
-    for &delay in &[10u64, 1 << 40] {
+    for &delay in &[10u64, 1 << 40, u64::MAX - 500, u64::MAX] {
         for first in 0..5 {
             for probe in 0..4 {
                 sc += 1;
@@ -880,42 +905,42 @@ pub fn gen_c09(run: &mut Run, seed: u64, thorough: bool) {
                     0 | 4 => t0, // deployment only (one / two initial sets)
                     1 => {
                         // a plain rotation exactly at the boundary
-                        g.set_time(t0 + delay);
+                        g.set_time(t0.saturating_add(delay));
                         let cand = g.mk_set(2, 0, 2);
                         let latest = g.sets.last().unwrap().clone();
                         let pf = g.honest(&latest, &cand.rotation_data_hash(&g.env));
                         g.rotate(&cand, &pf, false, &AuthSpec::None, "directed-nobypass-at");
-                        t0 + delay
+                        t0.saturating_add(delay)
                     }
                     2 => {
                         // an operator bypass INSIDE the window (one second before the boundary)
-                        g.set_time(t0 + delay - 1);
+                        g.set_time(t0.saturating_add(delay) - 1);
                         let cand = g.mk_set(2, 0, 2);
                         let latest = g.sets.last().unwrap().clone();
                         let pf = g.honest(&latest, &cand.rotation_data_hash(&g.env));
                         g.rotate(&cand, &pf, true, &AuthSpec::exact(&[op.clone()]), "directed-bypass-early");
-                        t0 + delay - 1
+                        t0.saturating_add(delay) - 1
                     }
                     _ => {
                         // an operator bypass after the window, then a FAILED rotation later (must not move the clock)
-                        g.set_time(t0 + delay + 5);
+                        g.set_time(t0.saturating_add(delay).saturating_add(5));
                         let cand = g.mk_set(2, 0, 2);
                         let latest = g.sets.last().unwrap().clone();
                         let pf = g.honest(&latest, &cand.rotation_data_hash(&g.env));
                         g.rotate(&cand, &pf, true, &AuthSpec::exact(&[op.clone()]), "directed-bypass-late");
-                        g.set_time(t0 + delay + 7);
+                        g.set_time(t0.saturating_add(delay).saturating_add(7));
                         let dup = g.sets[0].clone();
                         let latest = g.sets.last().unwrap().clone();
                         let pf = g.honest(&latest, &dup.rotation_data_hash(&g.env));
                         g.rotate(&dup, &pf, true, &AuthSpec::exact(&[op.clone()]), "directed-fail-duplicate");
-                        t0 + delay + 5
+                        t0.saturating_add(delay).saturating_add(5)
                     }
                 };
                 let (t, name) = match probe {
                     0 => (g.now, "same-instant"),
-                    1 => (clock + delay - 1, "before"),
-                    2 => (clock + delay, "at"),
-                    _ => (clock + delay + 1, "after"),
+                    1 => (clock.saturating_add(delay) - 1, "before"),
+                    2 => (clock.saturating_add(delay), "at"),
+                    _ => (clock.saturating_add(delay).saturating_add(1), "after"),
                 };
                 g.set_time(t.max(g.now));
                 let cand = g.mk_set(2, 0, 2);
